@@ -1443,8 +1443,13 @@ def coc_clean(rig: Rig, frames) -> bool:
         return True
     vcid = struct.pack('<H', rig.chans['coc']['victim_cid'])
     n = 0
+    acl_stream = b''  # payload of all injected raw ACL packets: a PDU header may be split over fragments
     for fr in frames:
         chan, data = fr[0], bytes(fr[1])
+        if chan == 'hci' and data[:1] == b'\x02':
+            acl_stream += data[5:]
+            if vcid in acl_stream:
+                return False
         if chan == 'coc':
             n += 1
             if len(data) < 2 or struct.unpack_from('<H', data, 0)[0] != len(data) - 2 or len(data) > 64:
